@@ -215,6 +215,15 @@ class Driver:
         for tid, r in self.model.revisions(oid):
             if tid == serial:
                 old = r
+        kind = 'resolved'
+        if old is None and self.model.has_shadow():
+            # a revision a pack kept although it could have dropped it
+            # (e.g. a second pack to the same time is a no-op): whether
+            # the writer's base can still be loaded is not promised
+            for tid, r in self.model.shadow_view().revisions(oid):
+                if tid == serial:
+                    old = r
+                    kind = 'resolved?'
         if old is None or old.kind == UNCREATE or crec.kind == UNCREATE:
             return ('conflict',)
         try:
@@ -224,7 +233,7 @@ class Driver:
             merged = objs.merge_states(so, sc, sn)
         except Exception:
             return ('conflict',)
-        return ('resolved', objs.canon_state(merged))
+        return (kind, objs.canon_state(merged))
 
     # -- ops -----------------------------------------------------------------
 
@@ -331,7 +340,7 @@ class Driver:
             try:
                 st.store(oid, serial, data, '', t)
             except ConflictError as e:
-                if want[0] == 'either':
+                if want[0] in ('either', 'resolved?'):
                     st.tpc_abort(t)
                     return 'conflict'
                 if isinstance(e, ReadConflictError) or want[0] != 'conflict':
@@ -340,6 +349,8 @@ class Driver:
                               % (oid, serial, type(e).__name__, want[0]))
                 st.tpc_abort(t)
                 return 'conflict'
+            if want[0] == 'resolved?':
+                want = ('resolved', want[1])
             if want[0] == 'conflict':
                 self.flag('store-outcome',
                           'store(%r, serial=%r) accepted, model says conflict'
